@@ -7,6 +7,7 @@ checks = {
  "C03": ("exploration", "generated models; iterated multiset vs exhaustive solution set, incl. continuation after posting", "Set equality (no missing / duplicate / non-solution, terminal value) against the reference on every generated model; prefixes continued after posting a further constraint.", "DESIGN 4/C03"),
  "C04": ("exploration", "generated models x objective views x procedures; optimum vs brute force", "Optimal/Unsatisfiable and every callback solution are judged against the brute-force optimum for both procedures, both directions and view objectives.", "DESIGN 4/C04"),
  "C05": ("exploration", "generated assumption sequences; S_A and core checks by brute force", "Solutions, UnsatisfiableUnderAssumptions, cores (implied by assumptions, inconsistent with the model) and retention of assumptions are judged by enumeration over sequences of solves on one solver.", "DESIGN 4/C05"),
+ "C06": ("translation_validation", "every DRCP proof emitted on generated models is re-checked by the harness's own DRCP checker", "Each proof produced while solving / optimising a generated model is parsed and checked step by step: tagged inferences by reverse propagation against the semantics of the tagged constraint (explicit domains, harness/src/props/proof.rs), nogoods by reverse unit propagation over earlier steps, and the conclusion (UNSAT / dual bound) against the verdict and the brute-force optimum. Each run validates the proofs it saw; it is not a proof about all proofs.", "DESIGN 4/C06"),
  "C07": ("exploration", "one model x >=8 configurations; each vs exhaustive reference", "Each configuration's iterated solution set and optimum must equal the exhaustive reference (stronger than pairwise agreement); thresholds are generated small so restarts and nogood deletion run on tiny instances.", "DESIGN 4/C07"),
  "C08": ("exploration", "cumulative task sets x CumulativeOptions sweep; iterated set vs definition", "Solution sets under 8 (quick) / all 144 (thorough) option combinations are compared with the definitional solution set.", "DESIGN 4/C08"),
  "C09": ("exploration", "all constraint kinds x implied_by/reify/negation; iterated set vs implication/equivalence semantics", "Solution sets over (variables, literal) are compared with the reference defined by implication / equivalence / complement.", "DESIGN 4/C09"),
@@ -16,13 +17,15 @@ checks = {
  "C13": ("exploration", "generated FlatZinc text through the real binary; output vs brute-force projection", "Generated FlatZinc over all handled builtins is run through the command-line binary and its printed solutions are compared with the brute-force projection on the output items.", "DESIGN 4/C13"),
  "C14": ("exploration", "generated CNF x layouts through the real binary; brute force + own RUP checker", "Verdicts vs brute force, models evaluated, layouts compared, DRAT proofs validated by the harness's forward RUP checker (translation validation of each emitted proof inside an exploration campaign).", "DESIGN 4/C14"),
  "C15": ("exploration", "generated WCNF through the real binary; optimum vs brute force, both encodings", "Status, last o line and cost of the printed model (recomputed from the file) vs the brute-force optimum; both encodings where applicable.", "DESIGN 4/C15"),
+ "C16": ("exploration", "generated models at large magnitudes with planted witnesses; exhaustive i128 reference / validity predicate", "Models whose domains, coefficients and right-hand sides sit around 2^15.5, 2^16, 2^30 and the 32-bit limits: with small domains the iterated solution set and the optimum (both procedures, both directions) must equal exact i128 enumeration; with spans up to the whole 32-bit range posting must succeed, satisfy must not report Unsatisfiable and the returned solution is evaluated exactly.", "DESIGN 4/C16"),
  "C17": ("exploration", "runtime monitoring of real searches (hook H1); every explanation judged by brute force", "Every propagation, conflict and analysis-time reason recorded by the tap is checked for sufficiency over the declared domains and for truth before the explained trail entry.", "DESIGN 4/C17"),
  "C18": ("exploration", "observing wrapper brancher (hook H2); exhaustive selector grid + generated composites", "Every decision of every built-in selector pair (grid exhaustive) and of composite branchers is checked to be unassigned and over an own variable; None only when all are fixed.", "DESIGN 4/C18"),
  "C19": ("exploration", "writer -> reader round trip over generated step sequences; corner layouts enumerated", "Round trip of generated proofs and literal definitions, double negation of atomics; the corner-layout grid is enumerated exhaustively.", "DESIGN 4/C19"),
+ "C20": ("exploration", "same input twice (library: two solvers in one process; CLI: two processes); traces compared", "For a generated model / file and a fixed configuration and seed, two runs must produce the same decisions, solutions, statistics, proof bytes (library) and the same standard output and proof files (CLI, time statistics filtered).", "DESIGN 4/C20"),
 }
 na = [
 ]
-pending = ["C06", "C16", "C20"]
+pending = []
 m = {
  "version": 1,
  "setup_cmd": "./setup.sh",
